@@ -26,10 +26,12 @@ MANIFEST = dict(
          "differential correspondence (exhaustive below a size bound, seeded sampling above); an implementation-only oracle "
          "generates the wrappers and scans them for duplicate or missing names.",
     design="3 C08",
-    note="Trusted: Lean kernel; the hand-written model (validated on generated inputs only); ASCII identifiers. Distinctness is "
-         "proved for default/template/overload expansion (C and Fortran names of one scope); for bufferify/fortran_generic "
-         "clones it is proved as a separate extension lemma under an extra no-collision hypothesis. Class template "
-         "instantiation, return_this, CFI, assumed-rank and fortran_generic_c variants are not modelled.",
+    note="Trusted: Lean kernel; the hand-written model (validated on generated inputs only); ASCII identifiers. Distinctness of "
+         "C symbols and Fortran specifics is proved for the whole modelled pipeline including `_bufferify` and fortran_generic "
+         "clones and across scopes, inside the stated domain (CoreOK, explicit suffixes single `_token`s, templated functions "
+         "without bufferify/fortran_generic, separated scopes); the known ways to leave the domain are proved as negation "
+         "witnesses. Class template instantiation, return_this, CFI, assumed-rank and fortran_generic_c variants are not "
+         "modelled; documented names are taken from regression/reference and corpus/c08_uncamel.txt.",
     technique="Lean 4 proof by induction over the expansion + differential correspondence model/implementation + output scan",
 )
 MODULES = ["ShroudVerif.Props.C08"]
@@ -48,7 +50,13 @@ THEOREMS = {
         "Shroud.Names.fortran_names_distinct",
         "Shroud.Names.explicit_suffix_clash",
         "Shroud.Names.distinct_underscore_forms_insufficient",
-        "Shroud.Names.expand_c_names_distinct_partial",
+        "Shroud.Names.expand_c_names_eq",
+        "Shroud.Names.expand_f_names_eq",
+        "Shroud.Names.expand_c_names_distinct",
+        "Shroud.Names.expand_fortran_names_distinct",
+        "Shroud.Names.expand_name_mem",
+        "Shroud.Names.program_c_names_distinct",
+        "Shroud.Names.program_c_names_distinct'",
         "Shroud.Names.generic_interface_members",
         "Shroud.Names.c_name_predictable",
         "Shroud.Names.f_names_predictable",
